@@ -198,6 +198,37 @@ def judge_applies(res, sub, rdocs, fdoc, expect_applies, label):
                 add_violation(res, f"{sub}:query-not-in-grammar", dict(case, title=title), "parsable", str(e)[:150])
 
 
+def judge_failing_filter(res, pos, nrules, via):
+    """(E) a filter that cannot be applied (its condition names a detection it does not define) targets only the rule at
+    position pos; errors are collected: every OTHER rule is still there and converts exactly as without the filter"""
+    from sigma.collection import SigmaCollection
+    from sigma.rule import SigmaRule
+
+    rdocs = [rule_doc(["sel"], "sel", logsource={"category": "c", "product": ("target" if i == pos else "p")}, n=i + 1) for i in range(nrules)]
+    good = filter_doc(["flt"], "not flt", logsource={"product": "p"}, n=1)
+    bad = filter_doc(["flt"], "not nosuch", logsource={"product": "target"}, n=2)
+    case = {"sub": "E", "position": pos, "rules": nrules, "via": via}
+    res["evaluations"] += 1
+    try:
+        expected = convert(rdocs + [good])
+        docs = copy.deepcopy(rdocs + [good, bad] if via != "bad-first" else [bad] + rdocs + [good])
+        coll = SigmaCollection.from_dicts(docs, collect_errors=True)
+        b = V.make_backend_class(K)(collect_errors=True)
+        b.init_processing_pipeline()
+        out = {r.title: b.convert_rule(r) for r in coll.rules if isinstance(r, SigmaRule)}
+    except Exception as e:
+        add_violation(res, f"E:exception:{type(e).__name__}", case, "collected", repr(e)[:200])
+        return
+    res["nontrivial"].add(h64(case))
+    res["outcomes"].add(h64(["E", sorted(out)]))
+    if not coll.errors:
+        add_violation(res, "E:failing-filter-not-reported", case, "an error", [])
+    others = {t: q for t, q in expected.items() if t != f"rule{pos + 1}"}
+    got = {t: q for t, q in out.items() if t != f"rule{pos + 1}"}
+    if got != others:
+        add_violation(res, "E:other-rules-changed-by-a-failing-filter", case, others, got)
+
+
 ATTRS = ["category", "product", "service"]
 
 
@@ -226,6 +257,10 @@ def space_R():
         (["rule_2"], {"rule1": False, "rule2": True}), ([RID + "1", "rule_2"], {"rule1": True, "rule2": True}), (["nope"], {"rule1": False, "rule2": False}),
         (RID + "2", {"rule1": False, "rule2": True}), ("ANY", {"rule1": True, "rule2": True}), ([RID + "9"], {"rule1": False, "rule2": False}), (["corr_x"], {"rule1": False, "rule2": False}),
         (["rule1"], {"rule1": False, "rule2": False}),  # title is not a reference
+        # the same identifier in other valid UUID spellings still names the rule
+        ([(RID + "1").upper()], {"rule1": True, "rule2": False}), (["{" + RID + "2}"], {"rule1": False, "rule2": True}),
+        ([(RID + "1").replace("-", "")], {"rule1": True, "rule2": False}), (["urn:uuid:" + RID + "2", "nope"], {"rule1": False, "rule2": True}),
+        (["None"], {"rule1": False, "rule2": False}),
     ]:
         yield rules, targets, corr
 
@@ -294,6 +329,10 @@ def run_shard(shard, tier, seed):
             f = filter_doc(["flt"], "not flt", rules=rules)
             for extra in ([], [corr]):
                 judge_applies(res, "R", [r1, r2] + extra, f, targets, f"rules/{rules!r}/{'with-corr' if extra else 'plain'}")
+        for nrules in (1, 2, 3, 4):
+            for pos in range(nrules):
+                for via in ("bad-last", "bad-first"):
+                    judge_failing_filter(res, pos, nrules, via)
         res["samples"].append({"sub": "R", "rules": [RID + "1"]})
     return res
 
